@@ -47,6 +47,7 @@ struct rtm_cam_cfg {
     uint32_t alt_w, alt_h;
     int set_fails, start_fails;
     int keep_pixels;
+    int stop_us;                  // latency of stop()
 };
 struct rtm_sto_cfg {
     int append_min_us, append_max_us; // latency of one append
@@ -56,6 +57,7 @@ struct rtm_sto_cfg {
     int fail_state;                   // DeviceState returned by the failing append
     int set_fails, start_fails;
     int keep_pixels;
+    int stop_us;                      // latency of stop()
 };
 
 struct rtm_cam {
